@@ -163,6 +163,16 @@ def alphabet(model, profile):
         m2 = ops.enabled(model, step)
         if m2 is not None:
             out.append((step, m2))
+    # a directory that is empty in all namespaces but one (rm_directory through every namespace must then refuse atomically)
+    for mode in ('uonly', 'jonly'):
+        child = ops.add_fp(model.cfg, 'AB', 'D1', 'c1', mode)
+        if child is None:
+            continue
+        for step in ([child], [ops.add_dir(model.cfg, 'D1'), child]):
+            m2 = ops.enabled(model, step)
+            if m2 is not None:
+                out.append((step, m2))
+                break
     # an image that add_isohybrid accepts (boot file with the isolinux signature, load size 4), so that its refusals for
     # bad geometry / partition parameters are reached
     hyb = [ops.add_fp(model.cfg, 'B', '/', 'boot'), ['add_eltorito', {'bootfile_path': '/B.;1', 'boot_load_size': 4}]]
